@@ -195,11 +195,14 @@ h_dtadd_rs(void)
 	struct dt_dtdur_s dur;
 	int n0, sod, h, m, s, yn;
 
-	/* start within 3 s either side of the end of a listed leap day */
-	ASSUME(vidx >= 2 && vidx + 1 < NL);
+	/* start within 3 s either side of the end of a listed day; entry 1
+	 * (1971-12-31) is listed but inserts nothing: TAI-UTC does not step there */
+	ASSUME(vidx >= 1 && vidx + 1 < NL);
 	ASSUME(voff >= -3 && voff <= 3);
 	ASSUME(vn >= -5 && vn <= 5);
 	n0 = (int)leaps_d[vidx];
+	/* 23:59:60 exists on days that end with an inserted second only */
+	ASSUME(voff != 0 || vidx >= 2);
 	if (voff <= 0) {
 		/* 23:59:57 .. 23:59:60 on the leap day */
 		h = 23, m = 59, s = 60 + voff;
